@@ -41,6 +41,7 @@ def run(chk: Check, proj: Project) -> None:
     s6(chk, proj, m, f)
     s8_patch_installed(chk, proj)
     s9_no_token_lost(chk, proj, m, f)
+    s10_same_as_django(chk, proj, m, f)
 
 
 def s7_fresh_lexer(chk: Check, proj: Project, m, f) -> bool:
@@ -122,6 +123,68 @@ def s9_no_token_lost(chk: Check, proj: Project, m, f) -> None:
                "outside strings the scan stops at every quote and every `%` (no escape processing)" if ok else
                f"`{short(c)}` lets a backslash escape the next character OUTSIDE a string: `{{% a \"s\" \\%}}after` no longer ends at that `%}}`, the BLOCK token swallows the following text and tags")
     chk.floor("S9", n, 1)
+
+
+def _django_create_token() -> ast.FunctionDef:
+    import importlib.util
+
+    spec = importlib.util.find_spec("django.template.base")
+    if spec is None or not spec.origin:
+        raise AnalysisError("django.template.base not found")
+    tree = ast.parse(open(spec.origin).read())
+    fn = next((f_ for c in ast.walk(tree) if isinstance(c, ast.ClassDef) and c.name == "Lexer" for f_ in c.body if isinstance(f_, ast.FunctionDef) and f_.name == "create_token"), None)
+    if fn is None:
+        raise AnalysisError("django Lexer.create_token not found")
+    return fn
+
+
+def s10_same_as_django(chk: Check, proj: Project, m, f) -> None:
+    chk.rule("S10", "where the quote-aware path re-implements a decision of Django's Lexer.create_token, it is the SAME decision (compared with the installed Django's source): when a tag starts a verbatim block, and how a tag's contents are stripped")
+    dj = _django_create_token()
+    # Django: `elif content[:9] in ("verbatim", "verbatim "):`
+    dj_tests = [c for c in ast.walk(dj) if isinstance(c, ast.Compare) and any(isinstance(x, ast.Constant) and x.value == "verbatim" for x in ast.walk(c))]
+    ours = [c for c in ast.walk(f) if isinstance(c, ast.Compare) and any(isinstance(x, ast.Constant) and isinstance(x.value, str) and "verbatim" in x.value for x in ast.walk(c))]
+    if not dj_tests:
+        raise AnalysisError("verbatim-start test not found in django's Lexer.create_token")
+
+    def shape(c: ast.Compare) -> str:
+        import copy
+
+        c2 = copy.deepcopy(c)
+        # abstract the subject (`content` in Django, `<token>.contents` here)
+        for n_ in ast.walk(c2):
+            for fld, v in ast.iter_fields(n_):
+                if isinstance(v, ast.AST) and (isinstance(v, ast.Name) or (isinstance(v, ast.Attribute) and v.attr == "contents")):
+                    setattr(n_, fld, ast.Name(id="SUBJ", ctx=ast.Load()))
+        return norm(c2)
+
+    want = shape(dj_tests[0])
+    if not ours:
+        chk.undecided("S10", "util.template_parser:parse_template:verbatim-start-as-in-django", m.loc(f), "no test mentioning 'verbatim' in parse_template")
+    else:
+        got = [shape(c) for c in ours]
+        ok = any(g == want for g in got)
+        chk.ob("S10", "util.template_parser:parse_template:verbatim-start-as-in-django", m.loc(ours[0]), ok,
+               f"the verbatim-start test is Django's own: `{want}`" if ok else
+               f"the carried-over verbatim state is set on `{got[0]}`, Django's lexer decides on `{want}`: the two disagree for a tag name followed by a tab / newline (`{{% verbatim\\n \"x\" %}}`), after which every tag is emitted as TEXT and the template ends with 'Unclosed tag verbatim'")
+    # Django: `token_string[2:-2].strip()` - the no-argument strip (all Unicode whitespace)
+    dj_strip = [c for c in ast.walk(dj) if isinstance(c, ast.Call) and isinstance(c.func, ast.Attribute) and c.func.attr == "strip"]
+    dm, df = proj.func("util.template_parser", "_detailed_tag_parser")
+    tok = [c for c in calls(df, "Token")]
+    if not tok or len(tok[0].args) < 2 or not dj_strip:
+        chk.undecided("S10", "util.template_parser:_detailed_tag_parser:contents-stripped-as-in-django", dm.loc(df), "Token(...) construction / django strip not found")
+        return
+    v = tok[0].args[1]
+    src = v
+    if isinstance(v, ast.Name):
+        d = [x for _s, x in assignments(df, v.id) if x is not None]
+        src = d[-1] if d else v
+    strips = [c for c in ast.walk(src) if isinstance(c, ast.Call) and isinstance(c.func, ast.Attribute) and c.func.attr in ("strip", "lstrip", "rstrip")]
+    want_n = len(dj_strip[0].args)
+    ok = len(strips) == 1 and strips[0].func.attr == "strip" and len(strips[0].args) == want_n and not strips[0].keywords
+    chk.ob("S10", "util.template_parser:_detailed_tag_parser:contents-stripped-as-in-django", dm.loc(strips[0]) if strips else dm.loc(tok[0]), ok,
+           "the contents are stripped with the no-argument str.strip(), as Django's Lexer.create_token does" if ok else
+           f"the contents are stripped with `{short(strips[0]) if strips else 'nothing'}`, Django strips with `.strip()` (all Unicode whitespace): a quoted tag with a non-breaking space / U+3000 next to a delimiter keeps it in its contents, which then differ from the span without delimiters and from stock Django's token")
 
 
 def s8_patch_installed(chk: Check, proj: Project) -> None:
